@@ -87,6 +87,31 @@ class Norm:
                 ok = False
             if ok and changed and self._unchanged_only_without_affine_form(b, tb):
                 out[b.rec["path"]] = True
+        # by-value helpers `fn(G) -> G` returning the argument itself (only when it has no affine form) or to_jacobian(to_affine(arg)),
+        # and the `&mut` functions that assign such a helper's result of *self (or of the wrapped point) back
+        pure = self._pure_normalizers()
+        if pure:
+            for b in self.F.fn_bodies():
+                ins = b.rec.get("inputs") or []
+                if b.rec["path"] in out or len(ins) != 1 or not ins[0].startswith("&mut ") or not (is_g(ins[0]) or is_wrapper(ins[0])):
+                    continue
+                al = list(alts(self.repo.tb(b).final_value(("deref", 1))))
+                good = bool(al)
+                for a in al:
+                    v = a
+                    if v[0] == "update" and v[2] == (("f", 0),):
+                        v = v[3]
+                    if not (v[0] == "call" and v[1].d in pure and len(v[2]) == 1):
+                        good = False
+                        break
+                    tgt = strip(v[2][0])
+                    while tgt[0] == "field" and tgt[2] == 0:
+                        tgt = strip(tgt[1])
+                    if tgt != ("init", ("deref", 1)):
+                        good = False
+                        break
+                if good:
+                    out[b.rec["path"]] = True
         # wrappers that only hand *self (or the wrapped point) to a normaliser are normalisers
         for _ in range(3):
             grew = False
@@ -117,6 +142,50 @@ class Norm:
                     grew = True
             if not grew:
                 break
+        return out
+
+    def _pure_normalizers(self):
+        import itertools
+        out = {}
+        for b in self.F.fn_bodies():
+            ins = b.rec.get("inputs") or []
+            if len(ins) != 1 or ins[0].strip().startswith("&") or not is_g(ins[0]) or not is_g(b.rec.get("output") or ""):
+                continue
+            try:
+                tb = self.repo.tb(b)
+                rv = tb.return_value()
+            except Exception:
+                continue
+            ok, changed = True, False
+            for a in alts(rv):
+                if strip(a) == ("param", 1):
+                    continue
+                if a[0] == "call" and a[1].name == "to_jacobian" and "AffineG" in a[1].d and \
+                        any(s[0] == "call" and s[1].name == "to_affine" and len(s[2]) == 1 and strip(s[2][0]) == ("param", 1) for s in walk(a[2][0])):
+                    changed = True
+                    continue
+                ok = False
+            if not (ok and changed):
+                continue
+            # the argument may come back as it was only on the path where to_affine() returned None
+            atoms = paths.collect_atoms(b, tb)
+            datoms = [a for a in atoms if a[0] == "discr"]
+            others = [a for a in atoms if a[0] != "discr"]
+            aff = [a for a in datoms if any(s[0] == "call" and s[1].name == "to_affine" for s in walk(a[1]))]
+            if len(aff) != 1:
+                continue
+            good = True
+            for dc in itertools.product([0, 1], repeat=len(datoms)):
+                for asg in paths.enumerate_assignments(others):
+                    choice = dict(zip(datoms, dc))
+                    res = paths.simulate(b, tb, paths.Evaluator(asg), discr_choice=choice)
+                    if res.end != "return":
+                        continue
+                    v = paths.path_value(b, tb, res.blocks, 0)
+                    if strip(v) == ("param", 1) and choice[aff[0]] != 0:
+                        good = False
+            if good:
+                out[b.rec["path"]] = True
         return out
 
     def _unchanged_only_without_affine_form(self, b, tb):
